@@ -428,20 +428,26 @@ theorem toGoType_bytes_canonical (t : Ty) (ht : t = .string ∨ t = .bytes) (dat
 
 /-! ## Arguments.Pack / Arguments.Unpack -/
 
-/-- argument types covered by `unpack_pack`: the static elementary types, `string` and `bytes` -/
-def Ty.Flat (t : Ty) : Prop := t.isStaticElem = true ∨ t = .string ∨ t = .bytes
+/-- decoding a canonical dynamic argument of type `t`: the head word at `|A0|` holds the offset `o`, and at `o` stands the
+    packed value -/
+def DynOK (t : Ty) : Prop :=
+  ∀ (v : Val) (p : Bytes), HasTy t v → pack t v = some p →
+    ∀ (data A0 B0 A B : Bytes) (o : Nat), data = A0 ++ packNum (o : Int) ++ B0 → data = A ++ p ++ B → A.length = o →
+      data.length ≤ maxAlloc → (A0.length : Int) ≤ idxBound → toGoType t (A0.length : Int) data = .ok v
 
-theorem flat_dynamic {t : Ty} (h : t.Flat) (hd : t.isDynamic = true) : t = .string ∨ t = .bytes := by
-  rcases h with h | h | h
+/-- argument types covered by `unpack_pack`: the static elementary types, and the dynamic types whose canonical encoding is
+    shown to decode (`string`, `bytes`, slices of static elementary types — `flatb_sound`) -/
+def Ty.Flat (t : Ty) : Prop := t.isStaticElem = true ∨ (t.isDynamic = true ∧ DynOK t)
+
+theorem flat_dynamic {t : Ty} (h : t.Flat) (hd : t.isDynamic = true) : DynOK t := by
+  rcases h with h | h
   · cases t <;> simp_all [Ty.isStaticElem, Ty.isDynamic]
-  · exact Or.inl h
-  · exact Or.inr h
+  · exact h.2
 
 theorem flat_static {t : Ty} (h : t.Flat) (hd : ¬ t.isDynamic = true) : t.isStaticElem = true := by
-  rcases h with h | h | h
+  rcases h with h | h
   · exact h
-  · subst h; exact absurd rfl hd
-  · subst h; exact absurd rfl hd
+  · exact absurd h.1 hd
 
 theorem pack_bytes {t : Ty} (ht : t = .string ∨ t = .bytes) {v : Val} {p : Bytes} (h : pack t v = some p) :
     ∃ b, v = .bytes b ∧ p = packBytesSlice b b.length := by
@@ -450,6 +456,12 @@ theorem pack_bytes {t : Ty} (ht : t = .string ∨ t = .bytes) {v : Val} {p : Byt
     | .bytes b, h => simp only [pack] at h; injection h with h; exact ⟨b, rfl, h.symm⟩
   · match v, h with
     | .bytes b, h => simp only [pack] at h; injection h with h; exact ⟨b, rfl, h.symm⟩
+
+theorem dynOK_bytes (t : Ty) (ht : t = .string ∨ t = .bytes) : DynOK t := by
+  intro v p _ hp data A0 B0 A B o hd1 hd2 hA hlen hidx
+  obtain ⟨b, hv, hpb⟩ := pack_bytes ht hp
+  subst hv; subst hpb
+  exact toGoType_bytes_canonical t ht data A0 B0 A B b o hd1 hd2 hA hlen hidx
 
 /-- the argument values have the arguments' types -/
 inductive HasTys : List Ty → List Val → Prop where
@@ -522,10 +534,9 @@ theorem idx_arith (k : Nat) (hk : k ≤ 1048576) :
 
 theorem not_array_of_flat {t : Ty} (h : t.Flat) : ∀ n e, t ≠ .array n e := by
   intro n e he; subst he
-  rcases h with h | h | h
+  rcases h with h | h
   · simp [Ty.isStaticElem] at h
-  · cases h
-  · cases h
+  · have := h.1; simp [Ty.isDynamic] at this
 
 theorem unpackValues_cons_nonarray (t : Ty) (ts : List Ty) (index va : Int) (data : Bytes) (h : ∀ n e, t ≠ .array n e) :
     unpackValues (t :: ts) index va data =
@@ -576,21 +587,20 @@ theorem unpackValues_canonical : ∀ (tys : List Ty) (vs : List Val) (io : Nat) 
             have h1 := hp'.1
             have h2 := hp'.2
             obtain ⟨_, T, hT⟩ := packArgsLoop_shape ts vs' io (vi ++ packed) ret' vi2 hfts hvs hr
-            obtain ⟨b, hvb, hpb⟩ := pack_bytes (flat_dynamic hft hd) hpk
-            subst h1; subst h2; subst hvb
+            subst h1; subst h2
             -- the buffer, seen from the head word and from the tail
             have hd1 : Hd ++ (packNum ((io + vi.length : Nat) : Int) ++ ret') ++ vi2 ++ post
                 = Hd ++ packNum ((io + vi.length : Nat) : Int) ++ (ret' ++ vi2 ++ post) := by
               simp only [List.append_assoc]
             have hd2 : Hd ++ (packNum ((io + vi.length : Nat) : Int) ++ ret') ++ vi2 ++ post
-                = (Hd ++ packNum ((io + vi.length : Nat) : Int) ++ ret' ++ vi) ++ packBytesSlice b b.length ++ (T ++ post) := by
-              rw [hT, hpb]; simp only [List.append_assoc]
+                = (Hd ++ packNum ((io + vi.length : Nat) : Int) ++ ret' ++ vi) ++ packed ++ (T ++ post) := by
+              rw [hT]; simp only [List.append_assoc]
             have hAlen : (Hd ++ packNum ((io + vi.length : Nat) : Int) ++ ret' ++ vi).length = io + vi.length := by
               simp only [List.length_append, packNum_length] at hio ⊢; omega
-            have hdec := toGoType_bytes_canonical t (flat_dynamic hft hd) _ Hd (ret' ++ vi2 ++ post)
-              (Hd ++ packNum ((io + vi.length : Nat) : Int) ++ ret' ++ vi) (T ++ post) b (io + vi.length) hd1 hd2 hAlen hlen hidxB
-            have hrest := ih vs' io (Hd ++ packNum ((io + vi.length : Nat) : Int)) (vi ++ packBytesSlice b b.length) ret' vi2 post (k + 1)
-              hfts hvs (by rw [← hpb]; exact hr)
+            have hdec := flat_dynamic hft hd v packed hv hpk _ Hd (ret' ++ vi2 ++ post)
+              (Hd ++ packNum ((io + vi.length : Nat) : Int) ++ ret' ++ vi) (T ++ post) (io + vi.length) hd1 hd2 hAlen hlen hidxB
+            have hrest := ih vs' io (Hd ++ packNum ((io + vi.length : Nat) : Int)) (vi ++ packed) ret' vi2 post (k + 1)
+              hfts hvs hr
               (by rw [List.length_append, packNum_length, hHd]; omega)
               (by simp only [List.length_append, packNum_length] at hio ⊢; omega)
               (by have e : Hd ++ packNum ((io + vi.length : Nat) : Int) ++ ret' ++ vi2 ++ post
@@ -727,15 +737,143 @@ theorem unpackMethod_packMethod (sel : Bytes) (hsel : sel.length = 4) (tys : Lis
     rw [hb, Res.bind_ok]
     exact unpack_packArgs tys vs data hflat hty ha (by omega) hne hk
 
+/-! ## slices of static elements -/
+
+theorem ceil32_le (n : Nat) : ceil32 n ≤ 32 * n := by unfold ceil32; omega
+
+theorem static_not_dynamic {e : Ty} (he : e.isStaticElem = true) : e.isDynamic = false := by
+  cases e <;> simp_all [Ty.isStaticElem, Ty.isDynamic]
+
+theorem packElems_static (e : Ty) (he : e.isStaticElem = true) :
+    ∀ (vs : List Val) (offset : Nat), (∀ v ∈ vs, HasTy e v) →
+      ∃ packed, packElems (pack e) false vs offset = some ([], packed) ∧ packed.length = 32 * vs.length ∧
+        ∀ (pre post : Bytes) (j0 : Nat), pre.length = 32 * j0 → (pre ++ packed ++ post).length ≤ maxAlloc →
+          unpackLoop (toGoType e) wordSize (pre ++ packed ++ post) ((32 * j0 : Nat) : Int) vs.length = .ok vs := by
+  intro vs
+  induction vs with
+  | nil =>
+    intro offset _
+    refine ⟨[], rfl, rfl, ?_⟩
+    intro pre post j0 _ _
+    rfl
+  | cons v vs' ih =>
+    intro offset hall
+    have hv : HasTy e v := hall v (List.mem_cons_self ..)
+    have hvs : ∀ v' ∈ vs', HasTy e v' := fun v' h' => hall v' (List.mem_cons_of_mem _ h')
+    obtain ⟨w, hw1, hw2, hw3⟩ := readWord_pack e he v hv
+    obtain ⟨packed', hp1, hp2, hp3⟩ := ih (offset + w.length) hvs
+    refine ⟨w ++ packed', ?_, ?_, ?_⟩
+    · simp only [packElems, hw1, Option.bind_eq_bind, Option.bind_some, hp1]
+      rfl
+    · rw [List.length_append, hw2, hp2, List.length_cons]; omega
+    · intro pre post j0 hpre hlen
+      have hM := maxAlloc_eq
+      have hl : (pre ++ (w ++ packed') ++ post).length = 32 * j0 + 32 + packed'.length + post.length := by
+        simp only [List.length_append, hw2, hpre]; omega
+      have hb1 : 32 * j0 + 32 ≤ 281474976710656 := by omega
+      have hidx : ((pre.length : Nat) : Int) ≤ idxBound := by rw [idxBound_eq, hpre]; omega
+      have e1 : pre ++ (w ++ packed') ++ post = pre ++ w ++ (packed' ++ post) := by simp only [List.append_assoc]
+      have e2 : pre ++ (w ++ packed') ++ post = (pre ++ w) ++ packed' ++ post := by simp only [List.append_assoc]
+      have hdec := toGoType_static e he pre w (packed' ++ post) hw2 hidx
+      have hia : iadd ((32 * j0 : Nat) : Int) wordSize = ((32 * (j0 + 1) : Nat) : Int) := by
+        have := iadd_small (32 * j0) 32 (by omega)
+        rw [wordSize_eq]
+        have e : ((32 : Nat) : Int) = 32 := rfl
+        rw [e] at this
+        rw [this]
+        congr 1
+      have hrest := hp3 (pre ++ w) post (j0 + 1) (by rw [List.length_append, hw2, hpre]; omega) (by rw [← e2]; exact hlen)
+      have hi : ((32 * j0 : Nat) : Int) = ((pre.length : Nat) : Int) := by rw [hpre]
+      show unpackLoop (toGoType e) wordSize _ _ (vs'.length + 1) = _
+      unfold unpackLoop
+      rw [hia, hi, e1, hdec, hw3, Res.bind_ok, ← e1, e2, hrest]
+      rfl
+
+
+theorem imul_small (n : Nat) (h : 32 * n ≤ 281474976710656) : imul wordSize (n : Int) = ((32 * n : Nat) : Int) := by
+  rw [wordSize_eq, imul_eq] <;> (try unfold i63) <;> omega
+
+theorem dynOK_slice_static (e : Ty) (he : e.isStaticElem = true) : DynOK (.slice e) := by
+  intro v p hv hp data A0 B0 A B o hd1 hd2 hA hlen hidx
+  match v, hv, hp with
+  | .list vs, hv, hp =>
+    have hv' : ∀ v ∈ vs, HasTy e v := hv
+    obtain ⟨packed, hpe, hpl, hdecl⟩ := packElems_static e he vs 0 hv'
+    have hnd := static_not_dynamic he
+    have hp' : p = packNum (vs.length : Int) ++ packed := by
+      simp only [pack, hnd, Bool.false_eq_true, if_false, hpe, Option.bind_eq_bind, Option.bind_some] at hp
+      have := Option.some.inj hp
+      rw [← this]
+      unfold packBytesSlice rightPad
+      rw [if_pos (by rw [List.nil_append, hpl]; exact ceil32_le _)]
+      rfl
+    subst hp'
+    have hM := maxAlloc_eq
+    have hd2' : data = A ++ packNum (vs.length : Int) ++ (packed ++ B) := by
+      rw [hd2]; simp only [List.append_assoc]
+    have hdl : data.length = o + 32 + (32 * vs.length + B.length) := by
+      rw [hd2']; simp only [List.length_append, packNum_length, hA, hpl]
+    have hdl1 : data.length = A0.length + 32 + B0.length := by
+      rw [hd1]; simp only [List.length_append, packNum_length]
+    have c0 : ¬ ((A0.length : Int) + 32 > (data.length : Int)) := by omega
+    have hA0 : (0 : Int) ≤ (A0.length : Int) := by omega
+    have b1 : 32 * vs.length ≤ 281474976710656 := by omega
+    have g1 : (0 : Int) ≤ ((o + 32 : Nat) : Int) := by omega
+    have g2 : ((o + 32 : Nat) : Int) ≤ (data.length : Int) := by omega
+    have e1 : (((o + 32 : Nat) : Int)).toNat = o + 32 := by omega
+    have e2 : ((data.length : Int)).toNat - (o + 32) = 32 * vs.length + B.length := by omega
+    have csz : ¬ ((vs.length : Int) < 0) := by omega
+    have cchk : ¬ (((32 * vs.length : Nat) : Int) > (((packed ++ B).length : Nat) : Int)) := by
+      rw [List.length_append, hpl]; omega
+    have cms : (0 : Int) ≤ (vs.length : Int) ∧ (vs.length : Int) * (maxElemSize : Int) ≤ (maxAlloc : Int) := by
+      unfold maxElemSize; rw [hM]; omega
+    have etn : ((vs.length : Int)).toNat = vs.length := by omega
+    have hlpp := lpp_canonical data A0 B0 A packed B o vs.length hd1 hd2' hA (by rw [hpl]; omega) hlen hidx
+    have hsub : goSliceFrom data ((o + 32 : Nat) : Int) = .ok (packed ++ B) := by
+      unfold goSliceFrom
+      rw [goSlice_ok g1 g2 (Int.le_refl _), e1, e2]
+      apply congrArg Res.ok
+      have : data = (A ++ packNum (vs.length : Int)) ++ (packed ++ B) := by rw [hd2']
+      rw [this, List.drop_left' (by simp only [List.length_append, packNum_length, hA])]
+      exact List.take_of_length_le (by rw [List.length_append, hpl]; omega)
+    have him := imul_small vs.length b1
+    have hia0 : iadd (0 : Int) ((32 * vs.length : Nat) : Int) = ((32 * vs.length : Nat) : Int) := by
+      have := iadd_small 0 (32 * vs.length) (by omega)
+      simpa using this
+    have hloop := hdecl [] B 0 rfl (by
+      have : ([] ++ packed ++ B).length ≤ data.length := by
+        simp only [List.nil_append, List.length_append, hpl]; omega
+      omega)
+    have hi := iadd_index hA0 hidx
+    unfold toGoType
+    rw [hi, if_neg c0, hlpp, Res.bind_ok]
+    show (goSliceFrom data ((o + 32 : Nat) : Int) >>= fun sub =>
+        forEachUnpack (toGoType e) true wordSize sub 0 (vs.length : Int)) = _
+    rw [hsub, Res.bind_ok]
+    unfold forEachUnpack
+    rw [if_neg csz, him, hia0, if_neg cchk]
+    simp only [if_true]
+    unfold makeSlice
+    rw [if_pos cms, Res.bind_ok, etn]
+    have e0 : ((32 * 0 : Nat) : Int) = 0 := rfl
+    rw [e0] at hloop
+    simp only [List.nil_append] at hloop
+    rw [hloop]
+    rfl
+
+
 /-- executable form of `Ty.Flat` -/
-def Ty.flatb (t : Ty) : Bool := t.isStaticElem || t == .string || t == .bytes
+def Ty.flatb : Ty → Bool
+  | .string => true
+  | .bytes => true
+  | .slice e => e.isStaticElem
+  | t => t.isStaticElem
 
 theorem Ty.flatb_sound (t : Ty) (h : t.flatb = true) : t.Flat := by
-  unfold Ty.flatb at h
-  simp only [Bool.or_eq_true, beq_iff_eq] at h
-  rcases h with (h | h) | h
-  · exact Or.inl h
-  · exact Or.inr (Or.inl h)
-  · exact Or.inr (Or.inr h)
+  cases t with
+  | string => exact Or.inr ⟨rfl, dynOK_bytes _ (Or.inl rfl)⟩
+  | bytes => exact Or.inr ⟨rfl, dynOK_bytes _ (Or.inr rfl)⟩
+  | slice e => exact Or.inr ⟨rfl, dynOK_slice_static e h⟩
+  | _ => first | exact Or.inl h | (simp [Ty.flatb, Ty.isStaticElem] at h)
 
 end ZV.Abi
